@@ -247,17 +247,20 @@ def withinLimit (maxIter : Option Nat) (nIter : Nat) : Bool :=
         n_iter += 1
     ```
     `fuel` bounds the number of passes when `max_iter is None` (running out of fuel = did not return);
-    `optimize = none` = the optimiser raised. -/
-def loopG {σ : Type} (optimize : σ → Option σ) (mustRefine : σ → Bool) (refine : σ → σ) (maxIter : Option Nat) :
+    `optimize = none` = the optimiser raised; `refine = none` = `refine` raised (an assertion of the constructor). -/
+def loopG {σ : Type} (optimize : σ → Option σ) (mustRefine : σ → Bool) (refine : σ → Option σ) (maxIter : Option Nat) :
     Nat → Nat → σ → Option σ
   | 0, _, _ => none
   | fuel + 1, nIter, s =>
     if withinLimit maxIter nIter then
       if 1 < nIter then
         if mustRefine s then
-          match optimize (refine s) with
+          match refine s with
           | none => none
-          | some s' => loopG optimize mustRefine refine maxIter fuel (nIter + 1) s'
+          | some sr =>
+            match optimize sr with
+            | none => none
+            | some s' => loopG optimize mustRefine refine maxIter fuel (nIter + 1) s'
         else some s
       else
         match optimize s with
@@ -270,7 +273,7 @@ def loopG {σ : Type} (optimize : σ → Option σ) (mustRefine : σ → Bool) (
 def glbLoop (solve : State α → Option (Answer α)) (mustRefine : List (RectAlloc α) → Bool)
     (refine : List (RectAlloc α) → List (RectAlloc α)) (εA thr : α) (maxIter : Option Nat) :
     Nat → Nat → State α → Option (State α) :=
-  loopG (optimizeStep solve εA thr) (fun s => mustRefine s.1) (fun s => (refine s.1, s.2)) maxIter
+  loopG (optimizeStep solve εA thr) (fun s => mustRefine s.1) (fun s => some (refine s.1, s.2)) maxIter
 
 /-- `glbfloor` after `create_initial_allocation` (`n_iter` starts at 1). -/
 def glbfloor (solve : State α → Option (Answer α)) (mustRefine : List (RectAlloc α) → Bool)
